@@ -169,4 +169,17 @@ def setInt (n : Int) (k : Content) : Content := ⟨k.s, [], Ref.itoaInt n, none,
 /-- `SetCellBool` -/
 def setBool (b : Bool) (k : Content) : Content := ⟨k.s, ['b'], if b then ['1'] else ['0'], none, none⟩
 
+/-- a row-attribute setter (`SetRowHeight`, `SetRowVisible`, `SetRowOutlineLevel`): `prepareSheetXML(0, row)` (rows only, no cell is added)
+then the attribute change on row slot `i` -/
+def writeRowAttr (rows : List Row) (i : Nat) (f : Attrs → Attrs) : List Row :=
+  let rows := extendRows rows (i + 1)
+  match rows[i]? with
+  | none => rows
+  | some r => rows.set i { r with attrs := f r.attrs, cells := fillCols i r.cells 0 }
+
+/-- `SetRowHeight` (height ≥ 0), `SetRowVisible`, `SetRowOutlineLevel` as attribute changes -/
+def rowHeight (h : List Char) (a : Attrs) : Attrs := { a with ht := some h, customHeight := true }
+def rowVisible (v : Bool) (a : Attrs) : Attrs := { a with hidden := !v }
+def rowOutline (lv : Nat) (a : Attrs) : Attrs := { a with outlineLevel := lv }
+
 end XlModel.SaveBook
